@@ -25,9 +25,25 @@ type c11Case struct {
 	Keys   int     `json:"keys"`
 	Conns  int     `json:"connections"`
 	Macros []macro `json:"history"`
+	// ZeroPhone: key 0 belongs to the terminal whose phone number is all zeros. KeyPrefix: the server is started
+	// with WithKeyFunc(func(m) = KeyPrefix + phone), e.g. zero-padded keys
+	ZeroPhone bool   `json:"key0_is_the_all_zero_phone,omitempty"`
+	KeyPrefix string `json:"key_func_prefix,omitempty"`
 }
 
-func keyIdentity(k int) identity { return identity{Digits: fmt.Sprintf("1390000%04d", 1000+k)} }
+// c11Keys: how the keys of the current case look (set by c11Compile / checkC11 from the case; one case at a time per process).
+var c11Keys struct {
+	zeroPhone bool   // key 0 is the terminal whose phone number is all zeros
+	prefix    string // the server runs with WithKeyFunc(prefix + phone)
+}
+
+func keyIdentity(k int) identity {
+	id := identity{Digits: fmt.Sprintf("1390000%04d", 1000+k), Prefix: c11Keys.prefix}
+	if k == 0 && c11Keys.zeroPhone {
+		id.Digits = "0"
+	}
+	return id
+}
 
 // model state while generating and judging
 type connState struct {
@@ -57,6 +73,8 @@ func genC11(t *rapid.T) c11Case {
 	if rapid.IntRange(0, 3).Draw(t, "more_conns") != 0 {
 		c.Conns = rapid.IntRange(4, 8).Draw(t, "conns_many")
 	}
+	c.ZeroPhone = rapid.IntRange(0, 3).Draw(t, "zero_phone") == 0
+	c.KeyPrefix = rapid.SampledFrom([]string{"", "", "", "00", "0", "dev-"}).Draw(t, "key_prefix")
 	m := newRegModel(c.Conns)
 	n := rapid.IntRange(10, 30).Draw(t, "steps")
 	raced, burst := false, false
@@ -278,7 +296,9 @@ func c11Compile(c c11Case) c11Plan {
 
 func checkC11(c c11Case, _ *kit.Collector) kit.Result {
 	res := kit.Result{}
+	c11Keys.zeroPhone, c11Keys.prefix = c.ZeroPhone, c.KeyPrefix
 	p := c11Compile(c)
+	p.sc.KeyPrefix = c.KeyPrefix
 	h := runScenario(p.sc)
 	if !childVerdict(h, &res) {
 		return res
